@@ -44,9 +44,9 @@ for d in sorted(glob.glob(f"{V}/seeded/*/")):
             demo_exit = None
             sibling = None
             if not (o.returncode == 1 and any(l.startswith("VIOLATION") for l in lines)):
-                # a sibling property's check caught it when it was first evaluated: is that still so?
+                # the sibling checks it was evaluated with: does one of them report it (now)?
                 for c2, v2 in (meta.get("checks") or {}).items():
-                    if c2 != pid and v2.get("detected"):
+                    if c2 != pid:
                         o2 = run(f"cd {V} && VERIF_REPO={wt} VERIF_NO_EVIDENCE=1 timeout 1800 ./check {c2} quick")
                         if o2.returncode == 1 and "VIOLATION" in o2.stdout:
                             sibling = c2
